@@ -141,7 +141,7 @@ DEFS = [
     # a shorter candidate's saved position must not outlive the selection of a longer rule whose action continues
     flat('c10_stale_accept', [R(c('-'), 'return'), R(s('--'), 'continue'), R(c('b'), 'return')], ['C10', 'C03', 'C01', 'C07'], N=2, m=2, Nt=3),
     flat('c10_stale_accept_tail', [R(c('-'), 'return'), R(s('--'), 'continue'), R(c('a'), 'return'), R(cat(cset('a', 'b'), c('x'), c('y')), 'return')],
-         ['C10', 'C01'], N=3, m=2, tier='thorough', Nt=3),
+         ['C10', 'C01'], N=3, m=2, tier='sweep', Nt=3),   # CBMC needs more than 20 minutes on it; swept natively (window 6)
 ]
 
 DEFS += [
@@ -231,8 +231,14 @@ DEFS += [
 
 
 def by_prop(prop, tier='quick'):
+    """definitions for the Kani harnesses of a tier (tier='sweep' definitions are too heavy for CBMC and are only swept natively)"""
     out = []
     for d in DEFS:
-        if prop in d['props'] and (tier == 'thorough' or d.get('tier') != 'thorough'):
+        if prop in d['props'] and d.get('tier') != 'sweep' and (tier == 'thorough' or d.get('tier') != 'thorough'):
             out.append(d)
     return out
+
+
+def by_prop_all(prop):
+    """every definition of the property, whatever its tier (the native sweep runs them all)"""
+    return [d for d in DEFS if prop in d['props']]
